@@ -100,4 +100,9 @@ let () =
       ((match packet_decode (bt p) with
         | PdOk f -> fields_tok f | PdError -> "err" | PdUnsupported -> "unsup" | PdNotModelled -> "notmodelled"), out)
     | _ -> bad ());
+  register "penc" (function [p; out] ->
+      ((match packet_decode (bt p) with
+        | PdOk f -> if packet_of f = bt p then "same" else "differs:" ^ tb (packet_of f)
+        | _ -> "undecodable"), out)
+    | _ -> bad ());
   main ()
